@@ -215,7 +215,7 @@ def rule_rcu_shape(fx, col):
         c2 = b.origins(pe[0][1]['args'][1], through_calls=_deref_through)
         ok = (a == fsrc and c2 == {('call', cbb)}) or (c2 == fsrc and a == {('call', cbb)})
     col.add('RCU-SHAPE', 'rcu|success = returned value is the expected one', ok, 'swapped = ptr_eq(&*cur, &*prev)')
-    ii = [(bb, t) for bb, t in b.calls(include_cleanup=False) if U.callee_name(t) == 'into_inner' and t['dest']['local'] == 0]
+    ii = [(bb, t) for bb, t in b.calls(include_cleanup=False) if U.callee_name(t) == 'into_inner' and (t['dest']['local'] == 0 or b.origins(0) == {('call', bb)})]
     ok = len(ii) == 1 and b.origins(ii[0][1]['args'][0]) == {('call', cbb)}
     col.add('RCU-SHAPE', 'rcu|returns the replaced value', ok, 'the result is Guard::into_inner(prev), prev being what compare_and_swap returned')
     # cur := prev on retry: the guard handed to f can be the value the previous exchange returned
